@@ -125,6 +125,9 @@ where
         hist.push(act);
         w.ctx.transitions += 1;
         w.ctx.states += 1;
+        let case = || serde_json::to_value(Case { parent: w.parent.clone(), start: w.start.clone(), acts: hist.clone() }).unwrap();
+        // Every step is announced (a counter; the case is only rendered when a re-run asks for this very step).
+        w.ctx.announce(case);
         let got = guard(|| {
             let r = match act {
                 Act::Next => it2.next(),
@@ -133,10 +136,6 @@ where
             };
             (r, it2.size_hint())
         });
-        let case = || serde_json::to_value(Case { parent: w.parent.clone(), start: w.start.clone(), acts: hist.clone() }).unwrap();
-        if w.ctx.trace {
-            w.ctx.announce(case);
-        }
         let want_hint = if w.exact { (q2.len(), Some(q2.len())) } else { (0, None) };
         let ok = match got {
             Ok((r, hint)) => {
@@ -469,6 +468,12 @@ fn explore(ctx: &mut Ctx) {
 }
 
 fn replay(ctx: &mut Ctx, v: &Value) {
+    if v.get("start").is_none() {
+        // A case pinned while the parent was being set up: build the parent and position every iterator once.
+        let parent: Parent = serde_json::from_value(v["parent"].clone()).expect("replay: not a C10 case");
+        explore_parent(ctx, &parent, 1, 1, None);
+        return;
+    }
     let c: Case = serde_json::from_value(v.clone()).expect("replay: not a C10 case");
     explore_parent(ctx, &c.parent, usize::MAX, usize::MAX, Some((&c.start, &c.acts)));
 }
